@@ -30,7 +30,7 @@ from __future__ import annotations
 
 import ast
 
-from ..astutil import attr_chain, callee_name, calls, handler_types, is_name, is_self_attr, names_in, text, unwrap_await
+from ..astutil import call_recv, attr_chain, callee_name, calls, handler_types, is_name, is_self_attr, names_in, text, unwrap_await
 from ..core import Result
 from ..engines.hnd import enclosing_try_handlers
 from ..flow import MustFlow, node_calls
@@ -89,8 +89,8 @@ def _check_resolver(repo, res, fq):
                 if text(p.left) in ("os.path.pardir", "'..'", "os.pardir") and isinstance(p.comparators[0], ast.Attribute) and p.comparators[0].attr == "parts" and isinstance(p.comparators[0].value, ast.Name):
                     out.add(("nopardir", p.comparators[0].value.id))
             # x.is_absolute()
-            if isinstance(p, ast.Call) and callee_name(p) == "is_absolute" and isinstance(p.func.value, ast.Name):
-                out.add(("relative", p.func.value.id))
+            if isinstance(p, ast.Call) and callee_name(p) == "is_absolute" and isinstance(call_recv(p), ast.Name):
+                out.add(("relative", call_recv(p).id))
             # not x.name
             if isinstance(p, ast.UnaryOp) and isinstance(p.op, ast.Not) and isinstance(p.operand, ast.Attribute) and p.operand.attr == "name" and isinstance(p.operand.value, ast.Name):
                 out.add(("named", p.operand.value.id))
@@ -102,7 +102,7 @@ def _check_resolver(repo, res, fq):
             for t in st.targets:
                 if isinstance(t, ast.Name):
                     v = unwrap_await(st.value)
-                    preserving = isinstance(v, ast.Call) and callee_name(v) == "with_suffix" and isinstance(v.func.value, ast.Name) and v.func.value.id == t.id
+                    preserving = isinstance(v, ast.Call) and callee_name(v) == "with_suffix" and isinstance(call_recv(v), ast.Name) and call_recv(v).id == t.id
                     for fct in facts:
                         if fct[1] == t.id and not preserving:
                             dead.add(fct)
@@ -126,8 +126,8 @@ def _check_resolver(repo, res, fq):
                     res.add("C22-GUARD", fq, f"no-pardir-guard:{x}", f"{fq}: `{text(c)[:60]}` is reachable without `os.path.pardir in {x}.parts -> raise` on the current value of {x}: '../' names escape the search path", f.file, c.lineno)
                 if ("relative", x) not in st:
                     res.add("C22-GUARD", fq, f"no-absolute-guard:{x}", f"{fq}: `{text(c)[:60]}` is reachable without `{x}.is_absolute() -> raise`: joining an absolute name discards the search path", f.file, c.lineno)
-            if callee_name(c) == "with_suffix" and isinstance(c.func.value, ast.Name):
-                x = c.func.value.id
+            if callee_name(c) == "with_suffix" and isinstance(call_recv(c), ast.Name):
+                x = call_recv(c).id
                 res.ob(f"{fq}:with_suffix({x})")
                 if ("named", x) not in st:
                     res.add("C22-TOTAL", fq, f"with_suffix-unguarded:{x}", f"{fq}: `{text(c)[:50]}` raises ValueError for an empty name ('' or '.') — not dominated by `if not {x}.name: raise TemplateNotFoundError`", f.file, c.lineno)
@@ -204,14 +204,14 @@ def run(repo: Repo) -> Result:
         #         if not resolved.is_relative_to(base_resolved): continue
         binds = {}
         for st in ast.walk(sym_if):
-            if isinstance(st, ast.Assign) and isinstance(st.value, ast.Call) and callee_name(st.value) == "resolve" and isinstance(st.value.func.value, ast.Name):
-                binds[st.targets[0].id] = st.value.func.value.id
+            if isinstance(st, ast.Assign) and isinstance(st.value, ast.Call) and callee_name(st.value) == "resolve" and isinstance(call_recv(st.value), ast.Name):
+                binds[st.targets[0].id] = call_recv(st.value).id
         ok = False
         for st in ast.walk(sym_if):
             if isinstance(st, ast.If) and isinstance(st.test, ast.UnaryOp) and isinstance(st.test.op, ast.Not):
                 c = st.test.operand
-                if isinstance(c, ast.Call) and callee_name(c) == "is_relative_to" and isinstance(c.func.value, ast.Name) and c.args and isinstance(c.args[0], ast.Name):
-                    cand, base = binds.get(c.func.value.id), binds.get(c.args[0].id)
+                if isinstance(c, ast.Call) and callee_name(c) == "is_relative_to" and isinstance(call_recv(c), ast.Name) and c.args and isinstance(c.args[0], ast.Name):
+                    cand, base = binds.get(call_recv(c).id), binds.get(c.args[0].id)
                     loop_var = next((n.target.id for n in walk_no_nested(node) if isinstance(n, ast.For) and isinstance(n.target, ast.Name)), None)
                     if cand in fs_joined and base == loop_var and len(st.body) == 1 and isinstance(st.body[0], (ast.Continue, ast.Raise)):
                         ok = True
@@ -257,7 +257,7 @@ def run(repo: Repo) -> Result:
             for call in calls(f.node):
                 nm = callee_name(call)
                 if nm in READS or nm in ("_read", "Path", "joinpath"):
-                    recv = call.func.value if isinstance(call.func, ast.Attribute) else None
+                    recv = call_recv(call) if isinstance(call.func, ast.Attribute) else None
                     arg0 = call.args[0] if call.args else None
                     ok = (
                         (isinstance(recv, ast.Name) and recv.id in safe)
@@ -301,9 +301,9 @@ def run(repo: Repo) -> Result:
             if ci is None:
                 continue
             cparams = [p for p in ci.params() if p != "self"]
-            fwd = [call for call in calls(ci.node) if callee_name(call) == "__init__" and isinstance(call.func, ast.Attribute) and (text(call.func.value) == base.name or (isinstance(call.func.value, ast.Call) and is_name(call.func.value.func, "super")))]
+            fwd = [call for call in calls(ci.node) if callee_name(call) == "__init__" and isinstance(call.func, ast.Attribute) and (text(call_recv(call)) == base.name or (isinstance(call_recv(call), ast.Call) and is_name(call_recv(call).func, "super")))]
             # the call that reaches the base constructor: an explicit Base.__init__(self, ...) wins
-            explicit = [call for call in fwd if text(call.func.value) == base.name]
+            explicit = [call for call in fwd if text(call_recv(call)) == base.name]
             target = explicit[0] if explicit else (fwd[0] if fwd else None)
             for p in bparams:
                 if p not in cparams:
@@ -335,8 +335,8 @@ def run(repo: Repo) -> Result:
     p = [x for x in rd.params() if x != "self"][0]
     for call in calls(rd.node):
         if callee_name(call) in ("open", "stat", "read_text") and isinstance(call.func, ast.Attribute):
-            if not is_name(call.func.value, p):
-                res.add("C22-READ", rd.qual, f"{callee_name(call)}", f"_read opens `{text(call.func.value)}`, not the path it was given", rd.file, call.lineno)
+            if not is_name(call_recv(call), p):
+                res.add("C22-READ", rd.qual, f"{callee_name(call)}", f"_read opens `{text(call_recv(call))}`, not the path it was given", rd.file, call.lineno)
     return res
 
 
